@@ -1,5 +1,5 @@
 (* Model of the access paths of pgread (state after the four "fix:" commits 9d33496, 3f6901f, 9978c3f, e8977a2 on
-   /repo main):
+   /repo main and "fix: RemoteClient.DumpAll listed a database whose pg_class cannot be read" on branch verif-C12):
      pgdump/pgdump.go   withDefaults, dumpTable, DumpDatabaseFromFiles, DumpDataDir
      pgdump/remote.go   NewRemoteClient, Version, Control, Credentials, Databases, Database, loadCatalog, Tables,
                         TablesByName, Table, Columns, ColumnNames, Query, QueryByName, DumpTable, DumpDatabase,
@@ -315,12 +315,18 @@ Definition DumpDatabaseByName (fs : fsys) (c : client) (name : bytes) : client *
   let '(c1, odb) := Database fs c name in
   match odb with Some db => DumpDatabase fs c1 (db_oid db) | None => (c1, None) end.
 
+(* hasClassFile: base/<oid>/1259 can be read and is not empty *)
+Definition hasClassFile (fs : fsys) (dbOID : Z) : bool :=
+  match fs (PBase dbOID 1259) with Some data => blen data >? 0 | None => false end.
 Fixpoint dump_all_loop (fs : fsys) (c : client) (dbs : list DatabaseInfo) : client * list DatabaseDump :=
   match dbs with
   | [] => (c, [])
   | db :: rest =>
-    if has_prefix (db_name db) s_template then dump_all_loop fs c rest else        (* :442 *)
-    let '(c1, od) := DumpDatabase fs c (db_oid db) in
+    if has_prefix (db_name db) s_template then dump_all_loop fs c rest else        (* template databases *)
+    (* as repaired: like DumpDataDir, a database whose pg_class cannot be read (or is empty) is left out *)
+    let '(c0, ts) := Tables fs c (db_oid db) in
+    if (Z.of_nat (length ts) =? 0) && negb (hasClassFile fs (db_oid db)) then dump_all_loop fs c0 rest else
+    let '(c1, od) := DumpDatabase fs c0 (db_oid db) in
     let '(c2, r) := dump_all_loop fs c1 rest in
     match od with Some d => (c2, d :: r) | None => (c2, r) end
   end.
